@@ -84,6 +84,10 @@ const (
 )
 
 // Ledger is the interface required from Blockchain for Module to operate.
+// headerVerificationGasLimit is the GAS limit of a block witness verification
+// (the value the ledger uses for headers).
+const headerVerificationGasLimit = 3_00000000
+
 type Ledger interface {
 	AddHeaders(...*block.Header) error
 	BlockHeight() uint32
@@ -567,7 +571,15 @@ func (s *Module) AddBlock(block *block.Block) error {
 	}
 	if !bytes.Equal(hdr.Script.InvocationScript, block.Script.InvocationScript) ||
 		!bytes.Equal(hdr.Script.VerificationScript, block.Script.VerificationScript) {
-		return errors.New("invalid block: witness differs from the one of the verified header")
+		// Witnesses are not unique (any M of N validators make one), so the
+		// block can carry another valid one.
+		prev, err := s.bc.GetHeader(block.PrevHash)
+		if err != nil {
+			return fmt.Errorf("invalid block: witness differs from the one of the verified header, failed to get header %d to check it: %w", block.Index-1, err)
+		}
+		if _, err = s.bc.VerifyWitness(prev.NextConsensus, &block.Header, &block.Script, headerVerificationGasLimit); err != nil {
+			return fmt.Errorf("invalid block: witness differs from the one of the verified header: %w", err)
+		}
 	}
 	cache := s.dao.GetPrivate()
 	if err := cache.StoreAsBlock(block, nil, nil); err != nil {
